@@ -186,6 +186,7 @@ package host
 //@   prop C15 C06
 //@   requires setok(set) && cachefresh(set) && forall k int :: 0 <= k && k < len(hosts) ==> hosts[k] != nil
 //@   modifies mapof(set.all), mapof(set.healthyMain), mapof(set.healthyBackup), aval, heap("#closed")
+//@   ensures @removed-hosts-leave-the-member-map forall k int :: 0 <= k && k < len(hosts) ==> !has(set.all, hosts[k].Addr)
 //@   ensures @usable-hosts-are-current-members old(tiersinall(set)) ==> tiersinall(set)
 //@   ensures @cache-describes-the-current-tier cachefresh(set)
 
